@@ -13,7 +13,7 @@ ev == Rec[l]
 Check(P) == IF P THEN TRUE ELSE FALSE
 IsEvent(e) == l <= Len(Rec) /\ Rec[l].ev = e /\ l' = l + 1
 Count(i) == TLCSet(i, TLCGet(i) + 1)
-St0 == [open |-> FALSE, large |-> FALSE, acc |-> BZero, dead |-> FALSE, larges |-> <<>>, fin |-> "none", nold |-> 0]
+St0 == [open |-> FALSE, large |-> FALSE, acc |-> BZero, dead |-> FALSE, larges |-> <<>>, fin |-> "none", nold |-> 0, app |-> FALSE]
 Cls(ok) == IF ok THEN "ok" ELSE "err"
 
 TraceReset == IsEvent("Reset") /\ st' = St0
@@ -36,7 +36,7 @@ TraceRawCopy ==
    /\ IsEvent("ZRawCopy") /\ Check(ev.r = Cls(~st.dead))
    /\ st' = [st EXCEPT !.open = FALSE, !.larges = IF ev.r = "ok" THEN Append(st.larges, Need(ev.usize) \/ Need(ev.csize)) ELSE st.larges]
 \* opening the finished archive for append keeps every old entry (their local headers are not touched again)
-TraceAppend == IsEvent("ZAppend") /\ Check(ev.r = "ok" /\ st.fin = "ok") /\ st' = [st EXCEPT !.fin = "none", !.open = FALSE, !.nold = Len(st.larges)]
+TraceAppend == IsEvent("ZAppend") /\ Check(ev.r = "ok" /\ st.fin = "ok") /\ st' = [st EXCEPT !.fin = "none", !.open = FALSE, !.nold = Len(st.larges), !.app = TRUE]
 TraceBulk ==
    /\ IsEvent("ZBulk") /\ Check(ev.ok = (IF st.dead THEN 0 ELSE ev.count))
    /\ st' = [st EXCEPT !.open = FALSE, !.larges = st.larges \o [i \in 1..ev.ok |-> FALSE]]
@@ -53,7 +53,11 @@ TraceArch ==
    /\ Check(ev.lex_ok)
    /\ Check(ev.n = ev.expect.n /\ ev.names_digest = ev.expect.names_digest)            \* all entries, in order
    /\ Check(ev.all_lf_ok /\ ev.all_z64_exact /\ ev.overlaps = <<>>)
-   /\ Check(IsWriter(ev) => ev.gaps = <<>> /\ BEq(ev.prefix, BZero))
+   \* (after an append round whose rewritten directory is shorter than the old one, the directory is moved up so that it ends where
+   \*  the old archive ended - ZipWriter!FinalizeF: the only uncovered range is the one directly in front of the directory)
+   /\ Check(IsWriter(ev) => /\ BEq(ev.prefix, BZero)
+                             /\ IF st.app THEN \A k \in 1..Len(ev.gaps) : ev.gaps[k].before = "cd1" /\ BEq(ev.gaps[k].to, ev.cd_start)
+                                ELSE ev.gaps = <<>>)
    /\ Check(EndOk(ev))
    /\ Check(IsWriter(ev) => EndWriter(ev))
    /\ Check(ev.reader.r = "ok" /\ ev.reader.len = ev.n /\ ev.reader.names_digest = ev.names_digest
